@@ -117,9 +117,20 @@ def _native(out, parser, rendered, all_read, adef, tags, pos, names):
     if EXT:
         ref_sieve.KNOWN_EXTENSIONS.add(EXT)
     try:
-        cls = judge("c04", out, parser, rendered, 0, all_read)
+        cls = judge("c20", out, parser, rendered, 0, all_read)
         if out is True:
             _check_names(parser, adef, names)
+            if EXT and REQUIRED:
+                # the same Parser object, next script: the same use without its require must be refused
+                bare = rendered.split(b"\n", 1)[1]
+                try:
+                    again = parser.parse(bare)
+                except Exception as e:
+                    again = e
+                if again is not False or "extension '%s' not loaded" % EXT not in parser.error:
+                    raise Violation("C20/extension-not-required-but-accepted-on-reused-parser",
+                                    {"first": _txt(rendered), "second": _txt(bare), "verdict": repr(again),
+                                     "error": getattr(parser, "error", None)})
         return cls
     finally:
         del ref_sieve.CMDS["xcmd"]
